@@ -1,4 +1,5 @@
-import CrabModel.Fix.Interleaved
+import CrabProofs.Props.C01Engine
+import CrabProofs.Props.C06Below
 
 /-!
 # C06 — the fixpoint engine computes the least solution when nothing is extrapolated
@@ -21,3 +22,15 @@ theorem C06.widening_after_delay {A : Type} (c : Ctx A) (iteration : Nat) (a b :
 /-- the first descending step uses the meet, later ones the narrowing -/
 theorem C06.refine_first_is_meet {A : Type} (c : Ctx A) (a b : A) :
     refine c 1 a b = c.ops.meet a b := by simp [refine]
+
+/-- **Least solution.**  Driven with an exact value type (join = union, meet = intersection,
+    bottom = empty, `analyze` = exact image, widening = join, narrowing = meet) over a well-formed
+    ordering, every table entry describes exactly the states that reach the block: the iterator
+    returns the least solution of the flow equations, for every start block of the ordering
+    (the entry may head a loop), every assumption map, delay and number of descending iterations. -/
+theorem C06.run_exact {A S : Type} (c : Ctx A) (w : List Comp) (sem : Sem c S) (ex : Exact c sem)
+    (wf : WtoWF c w) (fuel : Nat) (st : St A) (h : run c fuel w = some st) (n : Nat) (s : S) :
+    (sem.γ (st.pre n) s ↔ ReachPre c sem n s) ∧ (sem.γ (st.post n) s ↔ ReachPost c sem n s) := by
+  have hs := C01.run_sound c w S sem fuel st wf h
+  have hb := C06.run_below_reach c w S sem fuel st ex wf.entry_mem h
+  exact ⟨⟨hb.1 n s, hs.1 n s⟩, ⟨hb.2 n s, hs.2 n s⟩⟩
